@@ -16,6 +16,7 @@ from typing import Any, Dict, List, Optional, Tuple
 import numpy as np
 
 from mc import choices, qsim, simctl, world
+from mc.report import guard_harness as _guard
 from mc.report import add_sample, add_violation, count, new_part, over_budget
 
 LEVEL = "exploration"
@@ -450,6 +451,7 @@ def run_case(prog, flushes, init, part, case_extra=None, config="generic") -> No
         except simctl.Blocked:
             obs.append(("blocked",))
         except Exception as exc:
+            _guard(exc)
             obs.append(("raised", type(exc).__name__, str(exc).splitlines()[0][:200] if str(exc) else ""))
         return real, obs
 
@@ -508,6 +510,7 @@ def _handles(real: Real):
         try:
             hv = fut.value
         except Exception as exc:
+            _guard(exc)
             hv = f"raised {type(exc).__name__}"
         try:
             sv = sm.get_array_part(addr, idx)
@@ -517,6 +520,7 @@ def _handles(real: Real):
     try:
         hv = list(real.A0[0:len(real.A0)]) if real.A0[0:len(real.A0)] is not None else None
     except Exception as exc:
+        _guard(exc)
         hv = f"raised {type(exc).__name__}"
     out.append(("array", 0, None, hv, hv, ctl.get(0)))
     for c, rf in sorted(real.cells.items()):
@@ -524,6 +528,7 @@ def _handles(real: Real):
             try:
                 hv = rf.value
             except Exception as exc:
+                _guard(exc)
                 hv = f"raised {type(exc).__name__}"
             out.append(("regfuture", c, None, hv, sm.get_register(rf.reg), real.ex._get_register(real.conn.app_id, rf.reg)))
     return out
